@@ -35,10 +35,12 @@ Pick == /\ ph = "pick"
         /\ ph' = "done"
 \* the backend's END frame (gRPC-Web trailer frame, Connect end-of-stream message) sent compressed: tiny on the
 \* wire, far beyond L once inflated; on the converting path the transcoder has to inflate and hold it
-EndPairing(t) == [name |-> "transform", form |-> "grpc", codec |-> "json", target |-> t, tcodec |-> "proto", method |-> "Bidi"]
+\* (cc = "proto": the re-framing path, which has to decode the end frame all the same)
+EndPairing(t, cc) == [name |-> IF cc = "json" THEN "transform" ELSE "reframe", form |-> "grpc", codec |-> cc, target |-> t,
+                      tcodec |-> "proto", method |-> "Bidi"]
 PickEnd == /\ ph = "pick"
-           /\ \E t \in {"connect", "grpcweb"}, d \in {"m1", "x100"}, L \in LValues :
-                s' = [pairing |-> EndPairing(t), dir |-> "end", rep |-> "plain", delta |-> d, comp |-> "gzip", L |-> L,
+           /\ \E t \in {"connect", "grpcweb"}, d \in {"m1", "x100"}, L \in LValues, cc \in {"json", "proto"} :
+                s' = [pairing |-> EndPairing(t, cc), dir |-> "end", rep |-> "plain", delta |-> d, comp |-> "gzip", L |-> L,
                       declared |-> FALSE, split |-> FALSE]
            /\ ph' = "done"
 Done == ph = "done" /\ UNCHANGED vars
